@@ -1,8 +1,11 @@
 import Sqljson.Audit
 import Sqljson.Props.Fuel
 import Sqljson.Props.C05
+import Sqljson.Props.C05b
 import Sqljson.Props.GenFacts
 #audit_ns C05 Sqljson.C05
 #audit C05 [Sqljson.GenFacts.raise_unchanged]
 #audit_ns C05 Sqljson.FuelProps
 #audit C05 [Sqljson.Exec.Fuel.sim_all, Sqljson.Exec.Fuel.adequate_all]
+#audit_ns C05 Sqljson.C05b
+#audit C05 [Sqljson.Exec.Total.tot_all, Sqljson.IntFloat.intTextIsFloat]
